@@ -437,6 +437,41 @@ def run_e2e(case):
             "server_exts": [x.EXTENSION_NAME for x in getattr(sconn.proto, "websocket_extensions_in_use", [])]}
 
 
+def run_multi(case):
+    """several connections on ONE server factory: ops ["open"] (new connection + a valid request) / ["lose", k] (connection k's
+    transport is gone). A connection that the server drops is reported lost to it right away, as a real transport would."""
+    opts = {"maxConnections": case["max"], "allowNullOrigin": True}
+    first = env.connect("server", options=opts, factory_kwargs={}, url="ws://localhost:9000")
+    factory = first.factory
+    conns, trace = [], []
+    req = (b"GET / HTTP/1.1\r\nHost: localhost:9000\r\nUpgrade: websocket\r\nConnection: Upgrade\r\n"
+           b"Sec-WebSocket-Key: dGhlIHNhbXBsZSBub25jZQ==\r\nSec-WebSocket-Version: 13\r\n\r\n")
+    for op in case["ops"]:
+        if op[0] == "open":
+            c = object.__new__(wsdrv.Conn)
+            c.env, c.role, c.factory, c.made = env, "server", factory, False
+            c.log = []
+            c.proto = factory.buildProtocol(wsdrv._Addr()) if FW == "tx" else factory()
+            c.transport = (wsdrv.TxTransport if FW == "tx" else wsdrv.AioTransport)(c.log)
+            c.gone = False
+            conns.append(c)
+            c.make()
+            c.feed(req)
+            env.turn()
+            if any(e[0] in ("lose", "abort") for e in c.log):
+                c.lost(True); c.gone = True
+        elif op[0] == "lose":
+            c = conns[op[1]]
+            if not c.gone:
+                c.lost(True); c.gone = True
+        def code(c):
+            w = [bytes.fromhex(e[1]) for e in c.log if e[0] == "write"]
+            return int(w[0].split(b" ")[1]) if w and w[0].startswith(b"HTTP/1.1 ") else None
+        trace.append({"count": factory.countConnections, "states": [c.state() for c in conns], "codes": [code(c) for c in conns],
+                      "escaped": [e[1] for c in conns for e in c.log if e[0] == "escaped"]})
+    return {"trace": trace}
+
+
 def guarded(fn, case):
     try:
         r = fn(case)
@@ -496,6 +531,7 @@ result = {
     "server": [guarded(run_server, c) for c in inp.get("server", [])],
     "client": [guarded(run_client, c) for c in inp.get("client", [])],
     "e2e": [guarded(run_e2e, c) for c in inp.get("e2e", [])],
+    "multi": [guarded(run_multi, c) for c in inp.get("multi", [])],
     "prims": prims(inp.get("prims", [])),
     "wild": wilds(inp.get("wild", [])),
 }
